@@ -324,17 +324,19 @@ Section RdpFacts.
     rewrite (chain_count _ _ _ HC); [lia|]. eapply chain_nonempty; eauto. lia.
   Qed.
 
-  Definition with_iters (o : option (list nat * list row * list seg)) : option (list nat * list row * nat) :=
-    match o with Some (red, rem, vis) => Some (red, rem, length vis) | None => None end.
   Definition without_iters (o : option (list nat * list row * list seg)) : option (list nat * list row) :=
     match o with Some (red, rem, vis) => Some (red, rem) | None => None end.
 
-  (* ... in the boolean form the judge evaluates on the implementation's output *)
-  Theorem rdp_C01_code : 2 <= n -> C01_rdp_code n (with_iters (rdp n)) = 0.
+  (* ... in the boolean form the judge evaluates on the implementation's output: one activation, <= 2n-3 iterations *)
+  Theorem rdp_C01_code : 2 <= n ->
+    match rdp n with
+    | Some (red, rem, vis) => C01_code n (2 * n - 3) 1 (Some (red, rem)) [length vis] = 0
+    | None => False
+    end.
   Proof.
     intros Hn. destruct (rdp_total Hn) as (red & rem & vis & -> & Hlen & HW & -> & Hcnt).
-    cbn [with_iters C01_rdp_code]. apply WFb_iff in HW. rewrite HW, rows_eqb_refl. cbn [negb].
-    apply Nat.eqb_eq in Hcnt. rewrite Hcnt. apply Nat.leb_le in Hlen. rewrite Hlen. reflexivity.
+    cbn [C01_code]. apply WFb_iff in HW. rewrite HW, rows_eqb_refl. cbn [negb].
+    apply Nat.eqb_eq in Hcnt. rewrite Hcnt. cbn [length forallb negb]. apply Nat.leb_le in Hlen. rewrite Hlen. reflexivity.
   Qed.
 
   (* C04, first clause: every retained segment with interior points was evaluated and accepted *)
